@@ -189,7 +189,7 @@ PROPS = {
         "real_vs_stub": "real: index maintenance on local writes and merges, planner index selection, index fetchers/iterators/matchers, join inversion; badger in-memory under SimStore; stub: remote commits delivered by block copy + synchronous merge hook; restart = log replay",
         "assumptions": ASSUME_COMMON + ["request generation is input sampling; what the simulation adds is the history (merges, DDL at arbitrary points, restarts)"],
         "probes": ["requests_compared", "requests_served_from_index", "remote_commits_merged", "indexes_created", "indexes_dropped", "restarts", "unique_rejects"],
-        "quick": {"count": 12, "budget_s": 70, "workers": 16},
+        "quick": {"count": 32, "budget_s": 70, "workers": 16},
         "thorough": {"count": 100000, "budget_s": 1500, "workers": 16},
         "text": "Same multiset of rows with and without indexes; with an order clause the same sequence of sort keys (limit/offset compared as sort-key sequences only); a request must not fail only on the indexed node; a unique index rejects a local write exactly when the model says a live document holds the same non-null value (composite: same tuple with every component non-null).",
         "note": "Four known findings are listed in known_findings.txt (array _all, JSON top-level scalars, index on a counter, _in with order); two thirds of the plans avoid those features so that the rest of the space is explored undisturbed. A mismatch found with a compound request is attributed to a single condition when that condition alone reproduces it.",
